@@ -5,7 +5,7 @@
 # still pass. Writes the outcome into <seeded-dir>/confirmed.json.
 d=$(realpath $1)
 export GOFLAGS=-mod=mod GOPROXY=off GOSUMDB=off
-WT=/tmp/wt-confirm
+WT=${CONFIRMWT:-/tmp/wt-confirm}
 [ -d $WT ] || git -C /repo worktree add -q --detach $WT HEAD
 git -C $WT checkout -q --detach $(git -C /repo rev-parse HEAD) && git -C $WT checkout -q -- . && git -C $WT clean -fdq
 pkg=$(python3 -c "import json;print(json.load(open('$d/meta.json'))['demo_pkg'])")
@@ -25,21 +25,21 @@ PY
 demo=$(ls $d/zz_demo_test.go $d/*.go 2>/dev/null | head -1)
 cp $demo $WT/$pkg/zz_demo_test.go
 cd $WT
-eval "timeout 1500 $cmd" > /tmp/confirm.without.log 2>&1; rc_without=$?
+eval "timeout 1500 $cmd" > ${CONFIRMLOG:-/tmp/confirm}.without.log 2>&1; rc_without=$?
 git apply $d/patch.diff || { echo "patch does not apply"; exit 2; }
-eval "timeout 1500 $cmd" > /tmp/confirm.with.log 2>&1; rc_with=$?
+eval "timeout 1500 $cmd" > ${CONFIRMLOG:-/tmp/confirm}.with.log 2>&1; rc_with=$?
 rm -f $WT/$pkg/zz_demo_test.go
 touched=$(git diff --name-only | xargs -n1 dirname | sort -u)
-build_ok=true; go build $(for t in $touched; do echo ./$t; done) > /tmp/confirm.build.log 2>&1 || build_ok=false
+build_ok=true; go build $(for t in $touched; do echo ./$t; done) > ${CONFIRMLOG:-/tmp/confirm}.build.log 2>&1 || build_ok=false
 tests=""
 for t in $touched; do
   if grep -q "\"github.com/snapcore/snapd/$t::" /root/.vp/BASELINE.json && python3 -c "
 import json,sys
 b=json.load(open('/root/.vp/BASELINE.json'))
 sys.exit(0 if any(x.startswith('github.com/snapcore/snapd/$t::') for x in b['stable_pass']) else 1)"; then
-    if timeout 1500 go test -vet=off -count=1 ./$t > /tmp/confirm.test.log 2>&1; then tests="$tests $t:pass"; else tests="$tests $t:FAIL"; fi
+    if timeout 1500 go test -vet=off -count=1 ./$t > ${CONFIRMLOG:-/tmp/confirm}.test.log 2>&1; then tests="$tests $t:pass"; else tests="$tests $t:FAIL"; fi
   else
-    if timeout 900 go test -vet=off -count=1 -run XXX_NONE ./$t > /tmp/confirm.test.log 2>&1; then tests="$tests $t:compiles(not-in-stable-baseline)"; else tests="$tests $t:TESTS-DO-NOT-COMPILE"; fi
+    if timeout 900 go test -vet=off -count=1 -run XXX_NONE ./$t > ${CONFIRMLOG:-/tmp/confirm}.test.log 2>&1; then tests="$tests $t:compiles(not-in-stable-baseline)"; else tests="$tests $t:TESTS-DO-NOT-COMPILE"; fi
   fi
 done
 git checkout -q -- . && git clean -fdq
